@@ -1,5 +1,5 @@
 /-
-  OLP.Stake.RecEnd — the record invariants across EndBlock (deletion of zero-power records,
+  OLP.Stake.RecEnd — the record invariants across EndBlock (deletion of powerless records,
   purge heights, unlocks, slashing verdicts) and Commit; then whole blocks and runs.
 -/
 import OLP.Stake.RecTx
@@ -14,10 +14,11 @@ theorem penalty30_ok : PenOK { pen := penalty30 } := by
   simp only [penalty30]
   constructor <;> omega
 
-/-- **forced by KF-C11-1**: no validator is found guilty and purged by the election in the same
-    EndBlock (otherwise the purge rule drops the postponed unstake of the slash); and the tally
-    tries a validator at most once (`CleanTracker` removes duplicate requests) -/
-def EndGuard (_ : St) (b : Block) : Prop := b.guilty.Nodup ∧ ∀ v ∈ b.guilty, v ∉ b.purged
+/-- What EndBlock needs: the tally tries a validator at most once (`CleanTracker` removes
+    duplicate requests against one validator before the tally).  Nothing a defect forces: the
+    hypotheses of KF-C11-1 (guilty and purged in one EndBlock; acb5e5c) and KF-C11-3 (verdict in
+    the block of a stake-address change; ebb3d1d, 7abde80) are gone. -/
+def EndGuard (_ : St) (b : Block) : Prop := b.guilty.Nodup
 
 /-- the invariant while the verdicts `rest` are still to be executed -/
 structure EndInv (U : List Addr) (s : St) (rest : List Addr) : Prop where
@@ -26,8 +27,6 @@ structure EndInv (U : List Addr) (s : St) (rest : List Addr) : Prop where
   noFuture : ∀ k v, s.height < k → s.delayed k v = none
   pendNonneg : ∀ v, 0 ≤ pendOf s v
   restClean : ∀ v, v ∈ rest → s.delayed s.height v = none
-  purgeOk : ∀ v, s.purge v ≤ s.height ∧ ((s.delayed s.height v).isSome → s.purge v < s.height)
-  restPurge : ∀ v, v ∈ rest → s.purge v < s.height
 
 /-- a verdict whose `MinusFromAddress` goes through completely -/
 def slashOk (c : Cfg) (s : St) (v : Addr) (sa : Addr) : St :=
@@ -40,20 +39,24 @@ def slashOk (c : Cfg) (s : St) (v : Addr) (sa : Addr) : St :=
            gPenal := upd s.gPenal sa (s.gPenal sa + (s.eff sa - (s.eff sa - c.pen (s.tot v)))) }
 
 theorem slash_ok_eq (c : Cfg) (s : St) (v : Addr) (r' : VRec) (hp : s.prev v = some r')
-    (h1 : c.pen (s.tot v) ≤ s.tot v) (h2 : c.pen (s.tot v) ≤ s.vd v r'.sa)
-    (h3 : c.pen (s.tot v) ≤ s.eff r'.sa) : slash c s v = slashOk c s v r'.sa := by
+    (h1 : c.pen (s.tot v) ≤ s.tot v) (h2 : c.pen (s.tot v) ≤ s.vd v (slashAddr s v r'))
+    (h3 : c.pen (s.tot v) ≤ s.eff (slashAddr s v r')) :
+    slash c s v = slashOk c s v (slashAddr s v r') := by
   rw [slash_some c s v r' hp]
-  have hm : (minusFromAddress { s with frozen := upd s.frozen v true } v r'.sa
+  have hm : (minusFromAddress { s with frozen := upd s.frozen v true } v (slashAddr s v r')
       (c.pen (s.tot v))).2 = true := by
     rw [minus_snd]; exact ⟨h1, h2, h3⟩
-  simp only [minus_ok _ v r'.sa _ hm, slashOk, upd_same]
+  simp only [minus_ok _ v (slashAddr s v r') _ hm, hm, if_true, slashOk, upd_same]
 
-/-- under the record invariants the slash never fails half-way -/
+/-- under the record invariants a verdict never fails: the current stake address holds the
+    whole locked total -/
 theorem slash_total {U : List Addr} (hU : U.Nodup) {c : Cfg} (hpen : PenOK c) {s : St}
-    (h : Rec U s) (hn : NonNeg s) (v : Addr) (r' : VRec) (hp : s.prev v = some r') :
-    0 ≤ c.pen (s.tot v) ∧ c.pen (s.tot v) ≤ s.tot v ∧ c.pen (s.tot v) ≤ s.vd v r'.sa ∧
-    c.pen (s.tot v) ≤ s.eff r'.sa ∧ (s.vals v = none → c.pen (s.tot v) = 0) := by
+    (h : Rec U s) (hn : NonNeg s) (v : Addr) (r' : VRec) :
+    0 ≤ c.pen (s.tot v) ∧ c.pen (s.tot v) ≤ s.tot v ∧
+    c.pen (s.tot v) ≤ s.vd v (slashAddr s v r') ∧
+    c.pen (s.tot v) ≤ s.eff (slashAddr s v r') ∧ (s.vals v = none → c.pen (s.tot v) = 0) := by
   have hp0 := hpen (s.tot v) (hn.tot v)
+  unfold slashAddr
   cases hv : s.vals v with
   | none =>
     have ht := h.absent v hv
@@ -62,11 +65,9 @@ theorem slash_total {U : List Addr} (hU : U.Nodup) {c : Cfg} (hpen : PenOK c) {s
     rw [hz]
     exact ⟨by omega, by omega, hn.vd v r'.sa, hn.eff r'.sa, fun _ => rfl⟩
   | some r =>
-    have hsa := h.sameAddr v r r' hp hv
     have ht := tot_eq_vd_sa hU h v r hv
-    rw [hsa] at ht
-    have he := vd_le_eff h hn v r'.sa
-    exact ⟨hp0.1, hp0.2, by omega, by omega, fun hh => by simp at hh⟩
+    have he := vd_le_eff h hn v r.sa
+    exact ⟨hp0.1, hp0.2, by simp only; omega, by simp only; omega, fun hh => by simp at hh⟩
 
 theorem endInv_slash {U : List Addr} (hU : U.Nodup) {c : Cfg} (hpen : PenOK c) {s : St}
     {v : Addr} {rest : List Addr} (h : EndInv U s (v :: rest)) (hnd : v ∉ rest) :
@@ -75,60 +76,60 @@ theorem endInv_slash {U : List Addr} (hU : U.Nodup) {c : Cfg} (hpen : PenOK c) {
   cases hp : s.prev v with
   | none =>
     rw [slash_none c s v hp]
-    refine ⟨⟨?_, ⟨h.nn.vd, h.nn.tot, h.nn.eff, h.nn.bnd, h.nn.mat⟩, h.noFuture, h.pendNonneg, ?_,
-      h.purgeOk, ?_⟩, rfl⟩
-    · exact ⟨hR.sup, hR.sumV, hR.sumD, hR.single, hR.staking, hR.absent, hR.sameAddr⟩
+    refine ⟨⟨?_, ⟨h.nn.vd, h.nn.tot, h.nn.eff, h.nn.bnd, h.nn.mat⟩, h.noFuture, h.pendNonneg, ?_⟩,
+      rfl⟩
+    · exact ⟨hR.sup, hR.sumV, hR.sumD, hR.single, hR.staking, hR.absent⟩
     · intro v' hv'; exact h.restClean v' (by simp [hv'])
-    · intro v' hv'; exact h.restPurge v' (by simp [hv'])
   | some r' =>
-    obtain ⟨q0, q1, q2, q3, q4⟩ := slash_total hU hpen hR h.nn v r' hp
+    obtain ⟨q0, q1, q2, q3, q4⟩ := slash_total hU hpen hR h.nn v r'
     rw [slash_ok_eq c s v r' hp q1 q2 q3]
+    generalize slashAddr s v r' = sa at q2 q3 ⊢
     have hclean : s.delayed s.height v = none := h.restClean v (by simp)
     have hpv : pendOf s v = 0 := by simp [pendOf, hclean]
-    have hmem : r'.sa ∈ U ∨ -c.pen (s.tot v) = 0 := by
+    have hmem : sa ∈ U ∨ -c.pen (s.tot v) = 0 := by
       by_cases hz : c.pen (s.tot v) = 0
       · right; omega
       · left
-        have : s.vd v r'.sa ≠ 0 := by omega
-        exact (hR.sup v r'.sa this).2
+        have : s.vd v sa ≠ 0 := by omega
+        exact (hR.sup v sa this).2
     have hmemv : v ∈ U ∨ -c.pen (s.tot v) = 0 := by
       by_cases hz : c.pen (s.tot v) = 0
       · right; omega
       · left
-        have : s.vd v r'.sa ≠ 0 := by omega
-        exact (hR.sup v r'.sa this).1
-    have hvd : ∀ v' d', (slashOk c s v r'.sa).vd v' d' =
-        if v' = v ∧ d' = r'.sa then s.vd v r'.sa - c.pen (s.tot v) else s.vd v' d' := by
+        have : s.vd v sa ≠ 0 := by omega
+        exact (hR.sup v sa this).1
+    have hvd : ∀ v' d', (slashOk c s v sa).vd v' d' =
+        if v' = v ∧ d' = sa then s.vd v sa - c.pen (s.tot v) else s.vd v' d' := by
       intro v' d'; simp only [slashOk, upd2_apply]
-    have hvdne : ∀ v' d', (slashOk c s v r'.sa).vd v' d' ≠ 0 → s.vd v' d' ≠ 0 := by
+    have hvdne : ∀ v' d', (slashOk c s v sa).vd v' d' ≠ 0 → s.vd v' d' ≠ 0 := by
       intro v' d' hne
       rw [hvd] at hne
-      by_cases hc : v' = v ∧ d' = r'.sa
+      by_cases hc : v' = v ∧ d' = sa
       · rw [hc.1, hc.2]
         simp only [hc, and_self, if_true] at hne
         intro hz
-        have := h.nn.vd v r'.sa
+        have := h.nn.vd v sa
         omega
       · simp only [hc, if_false] at hne; exact hne
-    have hpend : ∀ v', pendOf (slashOk c s v r'.sa) v' =
+    have hpend : ∀ v', pendOf (slashOk c s v sa) v' =
         if v' = v then c.pen (s.tot v) else pendOf s v' := by
       intro v'
       simp only [pendOf, slashOk, upd2_apply]
       by_eq v' v
       · simp [hEq]
       · simp [hEq]
-    have htot : ∀ v', (slashOk c s v r'.sa).tot v' =
+    have htot : ∀ v', (slashOk c s v sa).tot v' =
         if v' = v then s.tot v - c.pen (s.tot v) else s.tot v' := by
       intro v'; simp only [slashOk, upd_apply]
-    refine ⟨⟨?_, ?_, ?_, ?_, ?_, ?_, ?_⟩, rfl⟩
+    refine ⟨⟨?_, ?_, ?_, ?_, ?_⟩, rfl⟩
     · constructor
       · intro v' d' hne; exact hR.sup v' d' (hvdne v' d' hne)
-      · have := sumV_bump hU hR.sumV v r'.sa (-c.pen (s.tot v)) hmem
+      · have := sumV_bump hU hR.sumV v sa (-c.pen (s.tot v)) hmem
         intro v'
         have := this v'
         simp only [← Int.sub_eq_add_neg] at this
         exact this
-      · have := sumD_bump hU hR.sumD v r'.sa (-c.pen (s.tot v)) hmemv
+      · have := sumD_bump hU hR.sumD v sa (-c.pen (s.tot v)) hmemv
         intro d'
         have := this d'
         simp only [← Int.sub_eq_add_neg] at this
@@ -154,10 +155,18 @@ theorem endInv_slash {U : List Addr} (hU : U.Nodup) {c : Cfg} (hpen : PenOK c) {
           have := hR.absent v' hv2
           omega
         · simp only [hEq, if_false]; exact hR.absent v' hv2
-      · exact hR.sameAddr
-    · have := nonNeg_slash c h.nn v
-      rw [slash_ok_eq c s v r' hp q1 q2 q3] at this
-      exact this
+    · have hn := h.nn
+      refine ⟨?_, ?_, ?_, hn.bnd, hn.mat⟩
+      · intro v' d'
+        have := hn.vd v' d'
+        rw [hvd]; split <;> omega
+      · intro v'
+        have := hn.tot v'
+        rw [htot]; split <;> omega
+      · intro d'
+        have := hn.eff d'
+        show 0 ≤ upd s.eff sa (s.eff sa - c.pen (s.tot v)) d'
+        rw [upd_apply]; split <;> omega
     · intro k v' hk
       have hk' : s.height < k := hk
       simp only [slashOk, upd2_apply]
@@ -171,20 +180,9 @@ theorem endInv_slash {U : List Addr} (hU : U.Nodup) {c : Cfg} (hpen : PenOK c) {
       · exact h.pendNonneg v'
     · intro v' hv'
       have hne : v' ≠ v := fun e => hnd (e ▸ hv')
-      show (slashOk c s v r'.sa).delayed s.height v' = none
+      show (slashOk c s v sa).delayed s.height v' = none
       simp only [slashOk, upd2_apply, hne, and_false, if_false]
       exact h.restClean v' (by simp [hv'])
-    · intro v'
-      refine ⟨(h.purgeOk v').1, ?_⟩
-      intro hs
-      by_eq v' v
-      · subst hEq; exact h.restPurge v' (by simp)
-      · have : (slashOk c s v r'.sa).delayed s.height v' = s.delayed s.height v' := by
-          simp only [slashOk, upd2_apply, hEq, and_false, if_false]
-        have hs' : ((slashOk c s v r'.sa).delayed s.height v').isSome = true := hs
-        rw [this] at hs'
-        exact (h.purgeOk v').2 hs'
-    · intro v' hv'; exact h.restPurge v' (by simp [hv'])
 
 theorem endInv_foldSlash {U : List Addr} (hU : U.Nodup) {c : Cfg} (hpen : PenOK c) {s : St}
     {g : List Addr} (h : EndInv U s g) (hnd : g.Nodup) :
@@ -198,34 +196,37 @@ theorem endInv_foldSlash {U : List Addr} (hU : U.Nodup) {c : Cfg} (hpen : PenOK 
     obtain ⟨h2, e2⟩ := ih h1 hnd'.2
     exact ⟨h2, e2.trans e1⟩
 
+/-- what the deletion does to one record -/
+theorem deleteZeroPower_vals (s : St) (dl : List Addr) (v : Addr) :
+    ((deleteZeroPower s dl).vals v = s.vals v) ∨
+    ((deleteZeroPower s dl).vals v = none ∧ ∃ r, s.vals v = some r ∧ r.power ≤ 0) := by
+  simp only [deleteZeroPower]
+  cases hp : s.prev v with
+  | none => left; rfl
+  | some r' =>
+    cases hv : s.vals v with
+    | none => left; rfl
+    | some r =>
+      simp only
+      split
+      · rename_i hc; right; exact ⟨rfl, r, rfl, hc.2.1⟩
+      · left; rfl
+
 /-- the state EndBlock hands to the verdicts satisfies `EndInv` -/
 theorem endInv_start {U : List Addr} {s : St} (h : Rec U s) (hi : InBlock s) (hn : NonNeg s)
-    (g p : List Addr) (hgp : ∀ v ∈ g, v ∉ p) :
-    EndInv U (updateWithdrawReward (writePurge (deleteZeroPower s) p) s.height) g := by
-  have hdel : ∀ v r, (deleteZeroPower s).vals v = some r → s.vals v = some r := by
-    intro v r hr
-    simp only [deleteZeroPower] at hr
-    cases hp : s.prev v with
-    | none => rw [hp] at hr; exact hr
-    | some r' =>
-      rw [hp] at hr
-      simp only at hr
-      split at hr
-      · simp at hr
-      · exact hr
-  have hdelnone : ∀ v, (deleteZeroPower s).vals v = none → s.vals v = none ∨ s.tot v = 0 := by
-    intro v hr
-    simp only [deleteZeroPower] at hr
-    cases hp : s.prev v with
-    | none => rw [hp] at hr; exact Or.inl hr
-    | some r' =>
-      rw [hp] at hr
-      simp only at hr
-      split at hr
-      · rename_i hpow; exact Or.inr (hi.zeroPrev v r' hp hpow)
-      · exact Or.inl hr
-  have hpend : ∀ v, pendOf (updateWithdrawReward (writePurge (deleteZeroPower s) p) s.height) v = 0 :=
+    (g p dl : List Addr) :
+    EndInv U (updateWithdrawReward (writePurge (deleteZeroPower s dl) p) s.height) g := by
+  -- a record is deleted only when it has no power, hence nothing locked
+  have hzero : ∀ v r, s.vals v = some r → r.power ≤ 0 → s.tot v = 0 := by
+    intro v r hr hpow
+    obtain ⟨h1, h2, _⟩ := h.staking v r hr
+    rw [pendOf_inBlock hi] at h1
+    have := hn.tot v
+    omega
+  have hpend : ∀ v, pendOf (updateWithdrawReward (writePurge (deleteZeroPower s dl) p) s.height) v = 0 :=
     fun v => pendOf_inBlock hi v
+  have hvals : ∀ v, (updateWithdrawReward (writePurge (deleteZeroPower s dl) p) s.height).vals v =
+      (deleteZeroPower s dl).vals v := fun _ => rfl
   constructor
   · constructor
     · exact h.sup
@@ -234,103 +235,52 @@ theorem endInv_start {U : List Addr} {s : St} (h : Rec U s) (hi : InBlock s) (hn
     · intro v d hne
       obtain ⟨r, hr, hsa⟩ := h.single v d hne
       refine ⟨r, ?_, hsa⟩
-      show (deleteZeroPower s).vals v = some r
-      simp only [deleteZeroPower]
-      cases hp : s.prev v with
-      | none => exact hr
-      | some r' =>
-        simp only
-        split
-        · rename_i hpow
-          exfalso
-          exact hne (tot_zero_vd_zero h hn v (hi.zeroPrev v r' hp hpow) d)
-        · exact hr
+      rw [hvals]
+      rcases deleteZeroPower_vals s dl v with e | ⟨_, r2, hr2, hpow⟩
+      · rw [e]; exact hr
+      · exfalso
+        exact hne (tot_zero_vd_zero h hn v (hzero v r2 hr2 hpow) d)
     · intro v r hr
-      have := h.staking v r (hdel v r hr)
-      rw [hpend, pendOf_inBlock hi] at *
-      exact this
+      rw [hvals] at hr
+      rcases deleteZeroPower_vals s dl v with e | ⟨e, _⟩
+      · rw [e] at hr
+        have := h.staking v r hr
+        rw [hpend, pendOf_inBlock hi] at *
+        exact this
+      · rw [e] at hr; simp at hr
     · intro v hv
-      rcases hdelnone v hv with h1 | h1
-      · exact h.absent v h1
-      · exact h1
-    · intro v r r' hp hr
-      exact h.sameAddr v r r' hp (hdel v r hr)
-  · exact nonNeg_uwr (s := writePurge (deleteZeroPower s) p) ⟨hn.vd, hn.tot, hn.eff, hn.bnd, hn.mat⟩ s.height
+      rw [hvals] at hv
+      rcases deleteZeroPower_vals s dl v with e | ⟨_, r2, hr2, hpow⟩
+      · rw [e] at hv; exact h.absent v hv
+      · exact hzero v r2 hr2 hpow
+  · exact nonNeg_uwr (s := writePurge (deleteZeroPower s dl) p) ⟨hn.vd, hn.tot, hn.eff, hn.bnd, hn.mat⟩ s.height
   · intro k v hk
-    exact hi.noDelayed k v (by have : (updateWithdrawReward (writePurge (deleteZeroPower s) p) s.height).height = s.height := rfl; omega)
+    exact hi.noDelayed k v (by have : (updateWithdrawReward (writePurge (deleteZeroPower s dl) p) s.height).height = s.height := rfl; omega)
   · intro v; rw [hpend]; omega
   · intro v _
     exact hi.noDelayed s.height v (by omega)
-  · intro v
-    have hpo := hi.purgeOld v
-    have hd : (updateWithdrawReward (writePurge (deleteZeroPower s) p) s.height).delayed s.height v = none :=
-      hi.noDelayed s.height v (by omega)
-    constructor
-    · show (if v ∈ p then s.height else s.purge v) ≤ s.height
-      split <;> omega
-    · intro hs
-      have hs' : ((updateWithdrawReward (writePurge (deleteZeroPower s) p) s.height).delayed s.height v).isSome = true := hs
-      rw [hd] at hs'; simp at hs'
-  · intro v hv
-    have := hgp v hv
-    show (if v ∈ p then s.height else s.purge v) < s.height
-    simp only [this, if_false]
-    exact hi.purgeOld v
 
 /-- EndBlock and Commit: back to the boundary form -/
 theorem rec_end_commit {U : List Addr} (hU : U.Nodup) {c : Cfg} (hpen : PenOK c) {s : St}
-    (h : Rec U s) (hi : InBlock s) (hn : NonNeg s) (g p : List Addr) (hnd : g.Nodup)
-    (hgp : ∀ v ∈ g, v ∉ p) :
-    Rec U (commit (endBlock c s g p)) ∧ Boundary (commit (endBlock c s g p)) ∧
-    NonNeg (commit (endBlock c s g p)) := by
+    (h : Rec U s) (hi : InBlock s) (hn : NonNeg s) (g p dl : List Addr) (hnd : g.Nodup) :
+    Rec U (commit (endBlock c s g p dl)) ∧ Boundary (commit (endBlock c s g p dl)) ∧
+    NonNeg (commit (endBlock c s g p dl)) := by
   unfold endBlock
   by_cases h1 : s.height ≤ 1
   · simp only [h1, if_true]
     refine ⟨?_, ?_, ⟨hn.vd, hn.tot, hn.eff, hn.bnd, hn.mat⟩⟩
-    · constructor
-      · exact h.sup
-      · exact h.sumV
-      · exact h.sumD
-      · exact h.single
-      · exact h.staking
-      · exact h.absent
-      · intro v r r' hp hr
-        have hp' : s.vals v = some r' := hp
-        have hr' : s.vals v = some r := hr
-        rw [hp'] at hr'
-        rw [Option.some.inj hr']
+    · exact ⟨h.sup, h.sumV, h.sumD, h.single, h.staking, h.absent⟩
     · constructor
       · intro k v hk; exact hi.noDelayed k v (by have : (commit s).height = s.height := rfl; omega)
       · intro v
         have : pendOf (commit s) v = pendOf s v := rfl
         rw [this, pendOf_inBlock hi]; omega
-      · intro v
-        have := hi.purgeOld v
-        refine ⟨by show s.purge v ≤ s.height; omega, fun _ => this⟩
-      · rfl
   · simp only [h1, if_false]
-    obtain ⟨hE, eh⟩ := endInv_foldSlash hU hpen (endInv_start h hi hn g p hgp) hnd
-    have eh' : (g.foldl (slash c) (updateWithdrawReward (writePurge (deleteZeroPower s) p) s.height)).height
-        = s.height := eh
+    obtain ⟨hE, _⟩ := endInv_foldSlash hU hpen (endInv_start h hi hn g p dl) hnd
     have hR := hE.recs
     refine ⟨?_, ?_, ⟨hE.nn.vd, hE.nn.tot, hE.nn.eff, hE.nn.bnd, hE.nn.mat⟩⟩
-    · constructor
-      · exact hR.sup
-      · exact hR.sumV
-      · exact hR.sumD
-      · exact hR.single
-      · exact hR.staking
-      · exact hR.absent
-      · intro v r r' hp hr
-        have hp' : (g.foldl (slash c) (updateWithdrawReward (writePurge (deleteZeroPower s) p) s.height)).vals v = some r' := hp
-        have hr' : (g.foldl (slash c) (updateWithdrawReward (writePurge (deleteZeroPower s) p) s.height)).vals v = some r := hr
-        rw [hp'] at hr'
-        rw [Option.some.inj hr']
-    · constructor
-      · exact hE.noFuture
-      · exact hE.pendNonneg
-      · exact hE.purgeOk
-      · rfl
+    · exact ⟨hR.sup, hR.sumV, hR.sumD, hR.single, hR.staking, hR.absent⟩
+    · exact ⟨hE.noFuture, hE.pendNonneg⟩
 
 /-- the guards of one block: record guard on every transaction, verdict guard at EndBlock -/
 def RecBlockOK (U : List Addr) (s : St) (b : Block) : Prop := BlockOK (RecGuard U) EndGuard s b
@@ -342,7 +292,7 @@ theorem rec_execBlock {U : List Addr} (hU : U.Nodup) {c : Cfg} (hpen : PenOK c) 
   obtain ⟨h1, i1⟩ := rec_begin h hb hn
   have n1 : NonNeg (beginBlock s (s.height + 1)) := nonNeg_beginBlock hn _
   obtain ⟨h2, i2, n2⟩ := rec_runTxs hU h1 i1 n1 hg.1
-  exact rec_end_commit hU hpen h2 i2 n2 b.guilty b.purged hg.2.1 hg.2.2
+  exact rec_end_commit hU hpen h2 i2 n2 b.guilty b.purged b.deletable hg.2
 
 theorem rec_run {U : List Addr} (hU : U.Nodup) {c : Cfg} (hpen : PenOK c) {s : St}
     (h : Rec U s) (hb : Boundary s) (hn : NonNeg s) (bs : List Block)
